@@ -397,3 +397,19 @@ ASSUMPTIONS = ['default features, x86-64, no `asm` feature (the portable CIOS / 
                'squaring: the top buffer limb before the doubling pass is 0, so `r[2N-1] = r[2N-2] >> 63` is modelled as part of one shift chain']
 HYPOTHESES = ['prime (val m): premise of C01_inverse_prime (and of the batch-inversion instance on limbs); mathematics about the shipped moduli, not code',
               'field_theory zero one add mul sub opp div inv eq: the abstract field of C01_batch_inversion']
+
+# T-limb translator (lib/xlate_limb.py): coq/GenLimb/GenLimb.v is regenerated from the working tree's source text before
+# the Coq build; Props/GenLimb.v (generated per-N definitions = the list models + composed corollaries) is a strict obligation
+STRICT_PROP_FILES = ['GenLimb']
+
+
+def _genlimb_regen(ctx):
+    import importlib.util, os
+    sp = importlib.util.spec_from_file_location('genlimb_pre', os.path.join(ctx['ROOT'], 'props', 'GenLimb', 'pre.py'))
+    m = importlib.util.module_from_spec(sp); sp.loader.exec_module(m)
+    m.regen(ctx)
+
+
+def pre(ctx):
+    _genlimb_regen(ctx)
+
